@@ -63,6 +63,8 @@ type world struct {
 	adminImages       []adminImage
 	// flushed: what was acknowledged before a Flush/Sync that has returned
 	flushed map[string]string
+	// linked: a thread made edge versions (the as-of history of p -r-> q is compared across restarts)
+	linked bool
 }
 
 func (w *world) ack(item, val string) {
@@ -193,6 +195,45 @@ func vecWriter(prefix string, n int) func(any) {
 			}
 		}
 	}
+}
+
+// linker makes two versions of one edge at two different instants (the second supersedes the
+// first). What is compared is the edge's as-of history before and after a restart: a record
+// applied twice (once through the snapshot, once through the log) shows as a duplicated version.
+func linker(st any) {
+	w := st.(*world)
+	w.mu.Lock()
+	w.linked = true
+	w.mu.Unlock()
+	if err := w.e.VLink("i", "p", "q", "r", "", 1, nil); err != nil {
+		return
+	}
+	time.Sleep(20 * time.Millisecond)
+	w.e.VLink("i", "p", "q", "r", "", 2, nil)
+}
+
+// edgeHist walks the versions of p -r-> q backwards in time through as-of queries.
+func edgeHist(e *engine.Engine) string {
+	var out []string
+	t := int64(0)
+	for step := 0; step < 8; step++ {
+		es, _ := e.VGetEdges("i", "p", "r", t)
+		var l []string
+		minC := int64(0)
+		for _, x := range es {
+			l = append(l, fmt.Sprintf("%s c=%d d=%d w=%v", x.TargetID, x.CreatedAt, x.DeletedAt, x.Weight))
+			if minC == 0 || x.CreatedAt < minC {
+				minC = x.CreatedAt
+			}
+		}
+		sort.Strings(l)
+		out = append(out, fmt.Sprintf("@%d[%s]", t, strings.Join(l, "; ")))
+		if minC <= 1 {
+			break
+		}
+		t = minC - 1
+	}
+	return strings.Join(out, " ")
 }
 
 // snapshotter / rewriter: when the call has returned successfully, everything acknowledged up
@@ -466,6 +507,10 @@ func check(st any) (string, string) {
 			return k, d + " | files: " + ai.im.Listing()
 		}
 	}
+	histBefore := ""
+	if w.linked {
+		histBefore = edgeHist(w.e)
+	}
 	// (b) process death after a final Flush: recover a copy of the directory
 	if err := w.e.AOF.Flush(); err != nil {
 		return "final-flush-failed", err.Error()
@@ -485,10 +530,17 @@ func check(st any) (string, string) {
 		return "open-after-crash-failed", err.Error()
 	}
 	got := readState(e2, items)
+	histCrash := ""
+	if w.linked {
+		histCrash = edgeHist(e2)
+	}
 	e2.Close()
 	synctest.Wait()
 	if k, d := compare("lost-after-flush-and-crash", want, got); k != "" {
 		return k, d + " | files: " + im.Listing()
+	}
+	if histCrash != histBefore {
+		return "edge-history-changed-by-recovery", fmt.Sprintf("before: %s | after flush + crash + recovery: %s", histBefore, histCrash)
 	}
 	// (c) clean shutdown
 	if err := w.e.Close(); err != nil {
@@ -501,8 +553,15 @@ func check(st any) (string, string) {
 		return "open-after-close-failed", err.Error()
 	}
 	got = readState(e3, items)
+	histClose := ""
+	if w.linked {
+		histClose = edgeHist(e3)
+	}
 	e3.Close()
 	synctest.Wait()
+	if histClose != histBefore {
+		return "edge-history-changed-by-restart", fmt.Sprintf("before: %s | after Close + Open: %s", histBefore, histClose)
+	}
 	return compare("lost-after-close", want, got)
 }
 
@@ -779,6 +838,11 @@ func scenarios(thorough bool) []*explore.Scenario {
 		{Name: "auto-snapshot-vs-overwriter-vs-flush", Setup: newWorld(false, true), Check: check, Cleanup: cleanup, Filter: schedFilter, MaxTicks: 1, TickStep: time.Second,
 			Threads: []explore.Thread{T("writer", kvOverwriter("k", 2)), T("flusher", flusher("f", false))}},
 		mk("two-writers-vs-snapshot", false, false, 0, T("w1", kvWriter("a", 1)), T("w2", kvWriter("b", 2)), T("snapshot", snapshotter)),
+		// (one injected tick may wake the sleeping linker early; idle ticks wake it when nothing else can run)
+		{Name: "snapshot-vs-linker", Setup: newWorld(true, false), Check: check, Cleanup: cleanup, Filter: schedFilter, MaxTicks: 1, IdleTicks: 3,
+			Threads: []explore.Thread{T("linker", linker), T("snapshot", snapshotter)}},
+		{Name: "rewrite-vs-linker", Setup: newWorld(true, false), Check: check, Cleanup: cleanup, Filter: schedFilter, MaxTicks: 1, IdleTicks: 3,
+			Threads: []explore.Thread{T("linker", linker), T("rewrite", rewriter)}},
 		mk("periodic-flush-vs-writer", false, false, 2, T("writer", kvWriter("w", 2)), T("flusher", flusher("f", false))),
 	}
 	if thorough || os.Getenv("VERIF_SCENARIO") != "" {
